@@ -466,7 +466,7 @@ func init() {
 		"fmt.Fprintf":  fmtNop,
 		"fmt.Fprint":   fmtNop,
 		"fmt.Sprintf":  fmtStr,
-		"fmt.Sprint":   fmtStr,
+		"fmt.Sprint":   fmtSprint,
 		"fmt.Sprintln": fmtStr,
 		"fmt.Errorf": func(r *Run, fn *ssa.Function, a []Value) Value {
 			ef := r.eng.lookupFunc("errors.New")
@@ -509,6 +509,7 @@ func init() {
 			r.h.noteStub("uninterpreted function " + name)
 			return r.newByteSlice(out, len(out))
 		},
+		"crypto/internal/boring/sig.StandardCrypto": func(r *Run, fn *ssa.Function, a []Value) Value { return nil }, // an empty marker function
 		"github.com/piotrnar/gocoin/lib/others/siphash.Hash": func(r *Run, fn *ssa.Function, a []Value) Value {
 			// assembly on amd64: SipHash-2-4 computed here for concrete arguments, an injective ghost otherwise
 			k0, k1 := a[0].(*Term), a[1].(*Term)
@@ -570,6 +571,53 @@ func fmtNop(r *Run, fn *ssa.Function, a []Value) Value {
 	return TupleV{r.ts.Const(64, 0), &IfaceV{}}
 }
 func fmtStr(r *Run, fn *ssa.Function, a []Value) Value { return r.constStr("<fmt>") }
+
+// fmtSprint: fmt.Sprint for operands that are strings (symbolic bytes allowed) and concrete integers / booleans;
+// anything else gives the placeholder. Spaces go between operands when neither is a string, as in package fmt.
+func fmtSprint(r *Run, fn *ssa.Function, a []Value) Value {
+	sl, ok := a[0].(*SliceV)
+	if !ok || sl.obj == nil {
+		return r.constStr("")
+	}
+	arr := r.sliceArr(sl)
+	var out []*Term
+	prevStr := true
+	for i := 0; i < sl.len; i++ {
+		iv, isI := arr.e[sl.off+i].(*IfaceV)
+		if !isI || iv.typ == nil {
+			return r.constStr("<fmt>")
+		}
+		switch v := iv.val.(type) {
+		case StrV:
+			out = append(out, v.b...)
+			prevStr = true
+		case *Term:
+			if !v.IsConst() {
+				return r.constStr("<fmt>")
+			}
+			var txt string
+			b, isB := iv.typ.Underlying().(*types.Basic)
+			switch {
+			case isB && b.Info()&types.IsBoolean != 0:
+				txt = fmt.Sprint(v.k != 0)
+			case v.w == IntW:
+				txt = v.bk.String()
+			case isB && b.Info()&types.IsUnsigned != 0:
+				txt = fmt.Sprint(v.k)
+			default:
+				txt = fmt.Sprint(sext64(v.k, v.w))
+			}
+			if i > 0 && !prevStr {
+				out = append(out, r.constBytes([]byte(" "))...)
+			}
+			out = append(out, r.constBytes([]byte(txt))...)
+			prevStr = false
+		default:
+			return r.constStr("<fmt>")
+		}
+	}
+	return StrV{b: out}
+}
 
 func (s *SliceV) withLen(r *Run, n int) *SliceV { s.len = n; return s }
 
